@@ -8,3 +8,24 @@ package mkvs
 //@   modifies nothing
 //@   ensures fresh(result)
 //@   note an overlay is a new tree object layered over inner; nothing is written to inner until Commit
+
+// ---- commit (C13): a root is persisted only if it is the one the caller was told to reach ----
+
+//@ func tree.commitWithHooks
+//@   props C13
+//@   requires t != nil && t.cache != nil
+//@   precall db/api\.Batch\)\.Commit$ :: !opts.noPersist && (beforeDbCommit == nil || ufb("fnAccepts", beforeDbCommit, rootHash)) && root.Hash == rootHash && db.GBatchCommits == old(db.GBatchCommits)
+//@   ensures err == nil && beforeDbCommit != nil ==> ufb("fnAccepts", beforeDbCommit, result1)
+//@   ensures db.GBatchCommits <= old(db.GBatchCommits) + 1 && db.GBatchCommitsOK <= old(db.GBatchCommitsOK) + 1
+//@   ensures err != nil ==> db.GBatchCommitsOK == old(db.GBatchCommitsOK)
+//@   loop 1 invariant db.GBatchCommits == old(db.GBatchCommits) && db.GBatchCommitsOK == old(db.GBatchCommitsOK)
+//@   loop 2 invariant db.GBatchCommits == old(db.GBatchCommits) && db.GBatchCommitsOK == old(db.GBatchCommitsOK)
+//@   note the batch holding the new nodes, the write log and the root is committed at most once, with the hash doCommit computed, and only after the caller's pre-commit hook accepted that hash; on every error return no batch commit succeeded
+
+//@ func tree.CommitKnown
+//@   props C13
+//@   requires t != nil && t.cache != nil
+//@   closure 1 accepts rootHash == root.Hash
+//@   ensures err != nil ==> db.GBatchCommitsOK == old(db.GBatchCommitsOK)
+//@   ensures db.GBatchCommitsOK <= old(db.GBatchCommitsOK) + 1
+//@   note the hook passed to commitWithHooks accepts exactly the expected root hash (closure clause), so a successful batch commit implies the computed root equals the expected one; otherwise ErrKnownRootMismatch and nothing is committed
